@@ -4,7 +4,11 @@
      hmtxp|NG|NHM|HMTX|GLYF|LOCA|ORIG   font|IDX|PREFIX|BLOCK|ORIG
    impl result  = M#res  (M = d|r: the build's arithmetic mode)
    model result = res            when debug and release arithmetic give the same result
-                | resD || resR   otherwise *)
+                | resD || resR   otherwise
+   Since the repairs 8e2deb3 / 309cc90 / 5955e8e / 84a8f8b the model of the transformed glyf decoder
+   has no build-dependent arithmetic left outside the translated dx/dy code and never panics
+   (Props/C11.v: C11_glyf_decoder_total): the second form is not expected to occur any more, and a
+   panic of the implementation is a violation that no known finding absorbs. *)
 open Model
 open Zconv
 open Verdict
@@ -38,7 +42,8 @@ let dump_hm ((long, lsbs) : (z * z) list * z list) : string =
   Printf.sprintf "%s:%s" (join "," (fun (a, l) -> zs a ^ "/" ^ zs l) long) (join "," zs lsbs)
 
 (* debug and release arithmetic differ only after an overflow, which is a Panic in debug: the
-   release run is needed only then *)
+   release run is needed only then (kept for the day a mutation of the translated code brings an
+   overflow back) *)
 let both (f : mode -> string) : string =
   let d = f Debug in
   if d <> "panic" then d else d ^ " || " ^ f Release
@@ -123,8 +128,8 @@ let has_lsb_absent (input : string) : bool =
   | _ -> false
 
 (* The property, decided on the implementation's output.
-   1. A panic is a violation outright (class "panic"); the reason records what the model says so
-      that the known-finding patterns can tell the overflow sites apart.
+   1. A panic is a violation outright (class "panic"); the reason records what the model says
+      (an error or a value: the model itself predicts no panic on any input).
    2. When the case carries the encoder's input (ORIG), the decoded result must be that input:
       value for the integer encodings, glyph list / metrics for glyf and hmtx, and for a font every
       untransformed table byte-identical, hmtx equal to the original bytes, and the glyphs read
